@@ -3,6 +3,8 @@ import DtsVerif.Drv.Sections
 import DtsVerif.Drv.Shift
 import DtsVerif.Drv.Calib
 import DtsVerif.Drv.Guards
+import DtsVerif.Drv.MonteCarlo
+import DtsVerif.Drv.Average
 /-! Line-protocol driver: one JSON request per line on stdin, one JSON reply per line on stdout. -/
 open Lean DtsVerif.Drv
 
@@ -19,6 +21,10 @@ def dispatch (op : String) (j : Json) : R Json :=
   | "calib.temps" => opTemps j
   | "propagate" => opPropagate j
   | "guard" => opGuard j
+  | "mc.percentile" => opPercentile j
+  | "mc.unpack" => opMcUnpack j
+  | "avg.table" => opAvgTable j
+  | "avg.values" => opAvgValues j
   | _ => throw "bad-op"
 
 def handle (line : String) : String :=
